@@ -53,9 +53,10 @@ class C17(Check):
                 large = r.random() < 0.25
                 content = b"aligned content %d" % al
                 name = b"al" + b"n" * r.randrange(0, 9)
-                ops = pre + [("aligned", name, Opts(large=large, method=r.choice([0, 0, 8])), al), ("write", content), ("finish",)]
+                pw = b"pw" if r.random() < 0.2 else None          # D21: alignment of an encrypted entry
+                ops = pre + [("aligned", name, Opts(large=large, method=r.choice([0, 0, 8]), pw=pw), al), ("write", content), ("finish",)]
                 progs.append(ops)
-                metas.append(dict(k="aligned", align=al, name=name.hex(), content=content.hex(), idx=len(pre) // 2))
+                metas.append(dict(k="aligned", align=al, name=name.hex(), content=content.hex(), idx=len(pre) // 2, pw=(pw or b"").hex(), haspw=pw is not None))
         # extra-data programs
         def rec(kind, n):
             return struct.pack("<HH", kind, n) + bytes(r.randrange(256) for _ in range(n))
@@ -72,7 +73,7 @@ class C17(Check):
             central = b"".join(rec(r.choice([0xbeef, 0xdead, 1, 9]), r.choice([0, 3])) for _ in range(r.randrange(0, 3)))
             variant = r.choice(["shared", "split", "local-only", "central-only"])
             large = r.random() < 0.3
-            ops = [("extra", b"x", Opts(large=large, method=r.choice([0, 8]))), ("write", local)]
+            ops = [("extra", b"x", Opts(large=large, method=r.choice([0, 8]), pw=(b"pw" if r.random() < 0.15 else None))), ("write", local)]
             if variant == "shared":
                 ops += [("endextra",)]
                 exp_local, exp_central = local, local
@@ -96,7 +97,7 @@ class C17(Check):
             if m["k"] == "aligned":
                 _, data = wprog.final_bytes(o)
                 if data:
-                    cases.append(("entry %s %d 0 x 4096" % (hexs(data), m["idx"]), dict(k="reread", align=m["align"], content=m["content"])))
+                    cases.append(("entry %s %d %d x%s 4096" % (hexs(data), m["idx"], 1 if m["haspw"] else 0, m["pw"]), dict(k="reread", align=m["align"], content=m["content"])))
         return cases
 
     def oracle(self, line, meta, out):
